@@ -323,9 +323,21 @@ class LifeModel:
                 raise Invalid('unknown', k)
             parsed[k] = parse_value(d, s, k)
         for k in U:
-            if not self.is_override(k):
+            if not self.is_override(k) and not self.is_noop_U(k):
                 raise Undefined(f'-U{k} without an override')
         return parsed
+
+    def is_noop_U(self, k: str) -> bool:
+        """-U of a subproject's own project option that has no same-named option in the superproject (nothing it could
+        inherit from, now or after pending edits): there is no override to drop, the command changes nothing for it"""
+        if not k.startswith(SP + ':') or k in self.ambig:
+            return False
+        n = k[len(SP) + 1:]
+        if n not in self.file[SP] or n in self.file['top']:
+            return False
+        if self.applied is not None and (n not in self.applied[SP] or n in self.applied['top']):
+            return False
+        return True
 
     def is_override(self, k: str) -> bool:
         """a per-subproject override the user put in place with -Dsp:k=v"""
@@ -365,6 +377,14 @@ class LifeModel:
                 self.over[k] = v
             self.recorded[k] = D[k]
         for k in U:
+            if not self.is_override(k) and self.is_noop_U(k):
+                # nothing to drop.  What the command does to the option's own record is not defined by the docs (the tool
+                # keeps the stored value but forgets the recorded -D, so a later --wipe falls back to the default): from
+                # here on the option is only required to hold a value that is valid for its declaration.
+                self.note(k, 'U-noop')
+                self.anyvalid.add(k)
+                self.recorded.pop(k, None)
+                continue
             self.note(k, 'U-dropped')
             if k in self.over:
                 del self.over[k]
